@@ -50,7 +50,12 @@ def gen_cases(tier, seed):
             s.pop("_cls")
             shells.append(s)
         f = float(SCALES[i % len(SCALES)] * (1 if (i // len(SCALES)) % 2 == 0 else -1))
-        cases.append({"shells": shells, "eri": eri, "seed": [seed, i], "factor": f, "share": float(rng.uniform(-0.5, 1.5)),
+        if nsh >= 2 and i % 3 == 1:
+            # a single-primitive shell with columns of both signs (the simplest contraction there is)
+            shells[1]["e"] = shells[1]["e"][:1]
+            m1 = len(shells[1]["k"][0])
+            shells[1]["k"] = [[float((-1) ** m * (0.5 + m)) for m in range(m1)]]
+        cases.append({"shells": shells, "eri": eri, "seed": [seed, i], "factor": f, "share": float(rng.uniform(-0.5, 1.5)), "target": (1 if i % 3 == 1 else 0),
                       "classes": [gcls, "factor:%g" % f, "types:" + "".join(tp)] + (["with-eri"] if eri else []),
                       "cost": 60 + (sum(bases.nfunc(s, "c") for s in shells) ** 4 / 20 if eri else 0)})
     return cases
@@ -141,6 +146,19 @@ def run_case(case):
                     want = want * signs.reshape(shp)
             cmp(name, nidx, cm.call(fn, cm.build(new)), want, what, qty)
 
+    # the shell that gets rewritten: shell 0 (always K >= 2, M >= 2) or, in every third case, another shell of the
+    # basis (which may have a single primitive and/or negative coefficients); it is rotated to the front so that
+    # the function-index bookkeeping below stays simple
+    tgt = case.get("target", 0) % len(shells)
+    if tgt:
+        shells = [shells[tgt]] + shells[:tgt] + shells[tgt + 1:]
+        base = {}
+        for name, fn, nidx in F:
+            base[name] = cm.call(fn, cm.build(shells))
+            if isinstance(base[name], cm.Raised):
+                viols.append(cm.unexpected(base[name], name))
+        if viols:
+            return {"evals": len(F), "nontrivial": True, "classes": case["classes"], "errs": errs, "violations": viols}
     s0 = shells[0]
     K, M = len(s0["e"]), len(s0["k"][0])
     # (a) generalized shell -> M single-column shells
